@@ -91,7 +91,7 @@ int main(int argc, char **argv) {
     install_handlers();
     auto graphs = read_graphs(in);
     for (size_t i = (size_t) start; i < graphs.size(); i++) {
-        g_current_item = (long) i;
+        g_current_item = (long) i; set_crash_context(graphs[i].raw);
         const InGraph &g = graphs[i];
         for (auto &ksz : ks) for (auto &t : types) {
             long k = atol(ksz.c_str());
